@@ -345,6 +345,18 @@ impl Error {
         }
     }
 
+    /// Render the position of a syntax error again, against the text the caller passed in.
+    /// The in-place parser unescapes strings inside its private copy, so the line, column and
+    /// snippet computed from that copy can differ from the ones of the input.
+    #[cold]
+    pub(crate) fn rebase(self, json: &[u8]) -> Self {
+        if self.err.line == 0 || self.err.index > json.len() {
+            return self;
+        }
+        let ErrorImpl { code, index, .. } = *self.err;
+        Error::syntax(code, json, index)
+    }
+
     #[cold]
     pub(crate) fn ser_error(code: ErrorCode) -> Self {
         Error {
